@@ -10,7 +10,7 @@ from __future__ import annotations
 import ast
 import copy
 
-from .absval import (Lin, Sym, Opaque, Ch, Run, Rep, AbsStr, AObj, AFunc, AModule, AClass, ABuiltin,
+from .absval import (AIter, RepList, ASuper, Lin, Sym, Opaque, Ch, Run, Rep, AbsStr, AObj, AFunc, AModule, AClass, ABuiltin,
                      ABound, simplify_str, INF)
 from .loader import AnalysisError, norm, short, FuncInfo
 
@@ -92,6 +92,13 @@ def explore(make_interp, run, max_paths=4000):
     return paths
 
 
+class _BoundFI:
+    """A specific function bound to a receiver (super().m)."""
+
+    def __init__(self, fi, obj):
+        self.fi, self.obj = fi, obj
+
+
 class Frame:
     def __init__(self, fi, locals_=None, mod=None, cls=None):
         self.fi = fi
@@ -121,6 +128,7 @@ class Interp:
         self.attr_hook = attr_hook
         self.stores = []  # (target description, value, node) for attribute / subscript stores on abstract objects
         self.global_cache = {}
+        self.instantiate = True
         self.subst = {}  # Sym -> Lin (after unfolding a Run)
         self.excluded = {}  # Lin shape -> set of excluded values of the non-constant part
         self.unfolded = {}  # Run -> replacement atoms
@@ -413,6 +421,12 @@ class Interp:
             return a + b
         if isinstance(a, list) and isinstance(b, int) and op is ast.Mult:
             return a * b
+        if isinstance(a, list) and isinstance(b, Lin) and op is ast.Mult:
+            return RepList([], a, b, [])
+        if isinstance(a, RepList) and isinstance(b, list) and op is ast.Add:
+            return RepList(a.head, a.period, a.count, a.tail + b)
+        if isinstance(a, list) and isinstance(b, RepList) and op is ast.Add:
+            return RepList(a + b.head, b.period, b.count, b.tail)
         if isinstance(a, tuple) and isinstance(b, tuple) and op is ast.Add:
             return a + b
         la, lb = Lin.of(a), Lin.of(b)
@@ -454,6 +468,13 @@ class Interp:
 
     def compare(self, op, a, b, node=None):
         a, b = _unlin(a), _unlin(b)
+        for x, y, refl in ((a, b, False), (b, a, True)):
+            if hasattr(x, "a_compare"):
+                r = x.a_compare(self, op, y, refl, node)
+                if r is not NotImplemented:
+                    return r
+        if isinstance(a, (set, frozenset)) and isinstance(b, (set, frozenset)) and op in _PYCMP:
+            return _PYCMP[op](a, b)
         a, b = simplify_str(a), simplify_str(b)
         if op in (ast.Is, ast.IsNot):
             if a is None or b is None:
@@ -678,6 +699,17 @@ class Interp:
         idx = simplify_str(idx)
         if hasattr(v, "a_index"):
             return v.a_index(self, idx, node)
+        if isinstance(v, AIter):
+            raise RaiseEx("TypeError", node)  # iterators are not subscriptable
+        if isinstance(v, RepList) and isinstance(idx, int):
+            if idx >= 0 and idx < len(v.head):
+                return v.head[idx]
+            if idx < 0 and -idx <= len(v.tail):
+                return v.tail[idx]
+            lo, hi = self.lin_interval(v.count)
+            if idx >= 0 and not v.head and v.period and lo >= 1 and idx < len(v.period):
+                return v.period[idx]
+            raise CannotDecide("index %d into %r" % (idx, v))
         if isinstance(v, (list, tuple)):
             if isinstance(idx, int):
                 try:
@@ -721,6 +753,18 @@ class Interp:
         raise CannotDecide("subscript %r[%r]" % (v, idx))
 
     def slice(self, v, lo, hi, st, node=None):
+        if isinstance(v, AIter):
+            raise RaiseEx("TypeError", node)
+        if isinstance(v, RepList):
+            if lo is None and st is None and isinstance(hi, int) and hi < 0 and -hi <= len(v.tail):
+                return RepList(v.head, v.period, v.count, v.tail[:hi])
+            if hi is None and st is None and isinstance(lo, int) and 0 <= lo <= len(v.head):
+                return RepList(v.head[lo:], v.period, v.count, v.tail)
+            if lo is None and hi is None and st is None:
+                return RepList(v.head, v.period, v.count, v.tail)
+            if lo is None and hi is None and st == -1:
+                return v.reversed()
+            raise CannotDecide("slice [%r:%r] of %r" % (lo, hi, v))
         if isinstance(v, (list, tuple)) and all(x is None or isinstance(x, int) for x in (lo, hi, st)):
             return v[lo:hi:st]
         if isinstance(v, str):
@@ -788,6 +832,17 @@ class Interp:
         return self.getattr(v, node.attr, node, frame)
 
     def getattr(self, v, name, node=None, frame=None):
+        if hasattr(v, "a_getattr"):
+            return v.a_getattr(self, name, node)
+        if isinstance(v, ASuper):
+            mro = self.repo.mro(v.obj.cls) if v.obj.cls is not None else []
+            after = mro[mro.index(v.ci) + 1:] if v.ci in mro else []
+            for c in after:
+                if name in c.methods:
+                    return _BoundFI(c.methods[name], v.obj)
+            if name == "__init__":
+                return ABuiltin("object.__init__")
+            raise CannotDecide("super().%s not found" % name)
         if isinstance(v, AModule):
             r = self.repo.resolve_name(v.mod, name)
             if r is None:
@@ -847,6 +902,11 @@ class Interp:
                 self.events.append(("call", key, args, node))
                 return Opaque("call:" + key, args)
             return self.call_function(fn.fi, args, kwargs, node)
+        if isinstance(fn, _BoundFI):
+            key = "%s.%s" % (fn.fi.module.name, fn.fi.qualname)
+            if key in self.summaries:
+                return self.summaries[key](self, [fn.obj] + list(args), kwargs, node)
+            return self.call_function(fn.fi, [fn.obj] + list(args), kwargs, node)
         if isinstance(fn, ABound):
             return self.call_method(fn.recv, fn.name, args, kwargs, node)
         if isinstance(fn, ABuiltin):
@@ -857,6 +917,16 @@ class Interp:
                 return self.summaries[key](self, args, kwargs, node)
             if fn.ci.name.endswith("Error") or fn.ci.name.endswith("Exception"):
                 return AObj(fn.ci, {"args": args}, name=fn.ci.name)
+            if self.instantiate:
+                obj = AObj(fn.ci, {}, name=fn.ci.name)
+                init = self.repo.find_method(fn.ci, "__init__")
+                if init is not None:
+                    ikey = "%s.%s" % (init.module.name, init.qualname)
+                    if ikey in self.summaries:
+                        self.summaries[ikey](self, [obj] + list(args), kwargs, node)
+                    else:
+                        self.call_function(init, [obj] + list(args), kwargs, node)
+                return obj
             self.events.append(("new", key, args, node))
             return Opaque("new:" + key, args)
         if isinstance(fn, Opaque):
@@ -900,6 +970,19 @@ class Interp:
 
     def call_method(self, recv, name, args, kwargs, node=None):
         recv = _unlin(recv)
+        if hasattr(recv, "a_method"):
+            r = recv.a_method(self, name, args, kwargs, node)
+            if r is not NotImplemented:
+                return r
+        if isinstance(recv, AClass) and name == "__subclasses__":
+            return [AClass(c) for c in self.repo.subclasses(recv.ci)]
+        if isinstance(recv, (set, frozenset)) and name in ("issubset", "issuperset", "union", "intersection") \
+                and args and isinstance(args[0], (set, frozenset, list, tuple)):
+            return getattr(recv, name)(set(args[0]))
+        if isinstance(recv, str) and name == "join" and args and isinstance(args[0], (list, tuple)) and _has_abs(args[0]):
+            return Opaque("join", args)
+        if isinstance(recv, str) and name == "format" and (_has_abs(args) or _has_abs(list(kwargs.values()))):
+            return Opaque("format", list(args))
         if isinstance(recv, AObj) and recv.cls is not None:
             m = self.repo.find_method(recv.cls, name)
             if m is not None:
@@ -976,6 +1059,14 @@ class Interp:
             E = recv.excluded
             if all(c.upper() in E and c.lower() in E for c in E):
                 return recv
+        if name in ("islower", "isupper") and isinstance(recv, AbsStr):
+            u = self.norm_str(recv).units()
+            defs = [x for x in u if isinstance(x, str)]
+            if name == "islower" and any(c.isupper() for c in defs):
+                return False
+            if name == "isupper" and any(c.islower() for c in defs):
+                return False
+            raise CannotDecide("%s() of %r" % (name, recv))
         if name == "replace" and len(args) == 2 and isinstance(args[0], str) and isinstance(args[1], str) and args[0]:
             recv2 = recv if isinstance(recv, AbsStr) else AbsStr([recv])
             pat = set(args[0])
@@ -1026,6 +1117,8 @@ class Interp:
 
     def call_builtin(self, name, args, kwargs, node=None):
         args = [_unlin(a) for a in args]
+        if name == "object.__init__":
+            return None
         if name == "len":
             v = args[0]
             if isinstance(v, (list, tuple, dict, str)):
@@ -1060,6 +1153,13 @@ class Interp:
                 return list(v.keys())
             if isinstance(v, str):
                 return list(v)
+            if isinstance(v, AIter):
+                it = v.items
+                return it if isinstance(it, RepList) else (list(it) if name == "list" else tuple(it))
+            if isinstance(v, RepList):
+                return RepList(v.head, v.period, v.count, v.tail)
+            if isinstance(v, (set, frozenset)):
+                return sorted(v, key=repr)
             return Opaque(name, args)
         if name == "enumerate" and isinstance(args[0], (list, tuple)):
             start = args[1] if len(args) > 1 and isinstance(args[1], int) else kwargs.get("start", 0)
@@ -1067,7 +1167,26 @@ class Interp:
         if name == "zip" and all(isinstance(a, (list, tuple)) for a in args):
             return [tuple(t) for t in zip(*args)]
         if name == "reversed" and isinstance(args[0], (list, tuple)):
-            return list(reversed(args[0]))
+            return AIter(list(reversed(args[0])))
+        if name == "reversed" and isinstance(args[0], RepList):
+            return AIter(args[0].reversed())
+        if name == "iter" and isinstance(args[0], (list, tuple)):
+            return AIter(list(args[0]))
+        if name in ("list", "tuple") and args and isinstance(args[0], AIter):
+            it = args[0].items
+            return it if isinstance(it, RepList) else (list(it) if name == "list" else tuple(it))
+        if name == "list" and args and isinstance(args[0], RepList):
+            a0 = args[0]
+            return RepList(a0.head, a0.period, a0.count, a0.tail)
+        if name in ("set", "frozenset") and (not args or isinstance(args[0], (list, tuple, set, frozenset))):
+            try:
+                return set(args[0]) if args else set()
+            except TypeError:
+                return Opaque("set", args)
+        if name == "super":
+            if len(args) == 2 and isinstance(args[0], AClass) and isinstance(args[1], AObj):
+                return ASuper(args[0].ci, args[1])
+            raise CannotDecide("super() form")
         if name == "sorted" and isinstance(args[0], (list, tuple)) and not _has_abs(args[0]) and not kwargs:
             return sorted(args[0])
         if name == "isinstance":
@@ -1162,6 +1281,10 @@ class Interp:
 
     def iterate(self, it, node=None):
         it = _unlin(it)
+        if isinstance(it, AIter) and isinstance(it.items, list):
+            return list(it.items)
+        if isinstance(it, (set, frozenset)):
+            return sorted(it, key=repr)
         if isinstance(it, (list, tuple)):
             return list(it)
         if isinstance(it, str):
@@ -1417,7 +1540,9 @@ def _as_absstr(v):
 
 
 def _has_abs(v, _d=0):
-    if hasattr(v, "a_index") or hasattr(v, "a_eq"):
+    if isinstance(v, (AIter, RepList, ASuper)):
+        return True
+    if hasattr(v, "a_index") or hasattr(v, "a_eq") or hasattr(v, "a_compare") or hasattr(v, "a_method"):
         return True
     if isinstance(v, (Lin, Opaque, Ch, Run, AbsStr, AObj, AFunc, AClass, AModule, ABuiltin, ABound)):
         return True
